@@ -18,6 +18,9 @@ type Taint struct {
 	KeepClean func(t types.Type) bool
 	// PhiClean: this phi is a declassifying select.
 	PhiClean func(phi *ssa.Phi) bool
+	// CleanValue: this value is clean whatever it is computed from (the verdict of an equality test written
+	// with arithmetic).
+	CleanValue func(v ssa.Value) bool
 
 	// Seed: values tainted from the start (e.g. a parameter when a summary is computed).
 	Seed []ssa.Value
@@ -31,6 +34,9 @@ func isErrorType(t types.Type) bool { return t.String() == "error" }
 
 func (ta *Taint) mark(v ssa.Value, changed *bool) {
 	if v == nil || ta.T[v] {
+		return
+	}
+	if ta.CleanValue != nil && ta.CleanValue(v) {
 		return
 	}
 	if ta.KeepClean != nil && ta.KeepClean(v.Type()) {
